@@ -796,3 +796,62 @@ def gen_figure_spec(rng, *, nfig=(1, 6), rich=0.3, color_pool=None, half_points=
     if rng.random() < 0.3:
         spec["page_footer"] = gen_text_comp(rng, "PF", rich=rich, color_pool=color_pool)
     return spec
+
+
+def with_prior(rng, spec):
+    """the document is not the first one its components were used for: attaches "prior" documents (near twins
+    of the spec: a column less or more, fewer rows, other texts, the same table as a section of a
+    multi-section document with nested headers) which spec.build constructs and encodes first FROM ONE POOL OF
+    COMPONENT OBJECTS - every component whose settings are equal in two of the documents is one object"""
+    import copy
+    if spec.get("kind", "table") != "table" or spec.get("prior"):
+        return spec
+    if spec.get("colheader", "default") == "default" and rng.random() < 0.5:
+        # an explicitly passed default header: rtf_column_header=[RTFColumnHeader()]
+        spec["colheader"] = [{}]
+    priors = []
+    for _ in range(rng.choice([1, 1, 2])):
+        p = copy.deepcopy({k: v for k, v in spec.items() if k != "prior"})
+        p.pop("_forms", None)
+        cols = p["df"]["cols"]
+        keys = set()
+        for k in ("page_by", "subline_by", "group_by"):
+            v = p["body"].get(k) or []
+            keys |= set([v] if isinstance(v, str) else v)
+        for _ in range(rng.choice([1, 1, 2])):
+            m = rng.random()
+            free = [c for c in cols if c["name"] not in keys]
+            if m < 0.3 and len(free) > 1:
+                cols.remove(rng.choice(free))
+            elif m < 0.55:
+                n = len(cols[0]["values"]) if cols else 0
+                for x in range(rng.randint(1, 3)):
+                    cols.append({"name": f"X{x}9", "dtype": "str", "values": [f"x{i}" for i in range(n)]})
+            elif m < 0.7 and cols and len(cols[0]["values"]) > 1:
+                h = rng.randint(1, len(cols[0]["values"]) - 1)
+                for c in cols:
+                    c["values"] = c["values"][:h]
+            elif m < 0.8:
+                key = rng.choice(["title", "footnote", "source", "subline"])
+                if isinstance(p.get(key), dict):
+                    p[key]["text"] = "other text"
+                else:
+                    p[key] = {"text": "other text"}
+            else:
+                p["_as_multi"] = True
+        if p.pop("_as_multi", False):
+            sec = {"df": p.pop("df"), "body": p.pop("body"), "colheader": p.pop("colheader", "default"),
+                   "_meta": {"nrows": 1}}
+            sec2 = copy.deepcopy(sec)
+            sec2["colheader"] = rng.choice(["none", "none", sec["colheader"]])
+            free = [c for c in sec["df"]["cols"] if c["name"] not in keys]
+            if rng.random() < 0.6 and len(free) > 1:
+                for c in rng.sample(free, rng.randint(1, len(free) - 1)):
+                    sec["df"]["cols"].remove(c)
+            if rng.random() < 0.5 and len(sec2["df"]["cols"]) > 1 + len(keys):
+                free = [c for c in sec2["df"]["cols"] if c["name"] not in keys]
+                sec2["df"]["cols"].remove(rng.choice(free))
+            p.update(kind="multi", sections=[sec, sec2], multi_header="nested")
+        priors.append(p)
+    spec["prior"] = priors
+    return spec
